@@ -342,6 +342,25 @@ def build(tier, repo):
                              "the constraint (labels that do not exist in ROWS, or rows silently dropped)" % it,
                              "range(len(c))", it)
 
+    # no decision about all rows of a vector quantity is taken from its first element
+    for fn_ in (tofile,):
+        for lp in [x for x in ast.walk(fn_) if isinstance(x, ast.For)]:
+            for idx_, st in enumerate(lp.body):
+                if not (isinstance(st, ast.If) and not st.orelse and any(isinstance(y, ast.Continue) for y in st.body)):
+                    continue
+                firsts = {x.value.id for x in ast.walk(st.test) if isinstance(x, ast.Subscript) and isinstance(x.value, ast.Name)
+                          and isinstance(x.slice, ast.Constant) and x.slice.value == 0}
+                for X in sorted(firsts):
+                    later = [y for rest in lp.body[idx_ + 1:] for y in ast.walk(rest) if isinstance(y, ast.For) and isinstance(y.target, ast.Name)
+                             and any(isinstance(z, ast.Subscript) and isinstance(z.value, ast.Name) and z.value.id == X
+                                     and isinstance(z.slice, ast.Name) and z.slice.id == y.target.id for z in ast.walk(y))]
+                    if later:
+                        r3.violation("tofile:skip decided from %s[0]" % X, m.where(st, fn_),
+                                     "the whole record group is skipped when `%s[0]` is zero although the following loop writes %s[%s] for every row: "
+                                     "rows whose first element is zero lose their other entries" % (X, X, later[0].target.id),
+                                     "per-row decision", pf.norm_expr(st.test)[:60])
+    r3.ok("tofile:no group skipped on its first element", m.where(tofile, tofile))
+
     r4 = chk.rule("C14-R4", "reader's RANGES and BOUNDS decision tables equal the MPS definition (constant propagation)",
                   "fromfile builds exactly the constraints the format defines")
     # RANGES: the loop over rowtypes
@@ -379,10 +398,13 @@ def build(tier, repo):
     bfinal = [n for n in bfinal if isinstance(n.target, ast.Tuple)]
     if not bfinal:
         raise AnalysisError("fromfile: final loop over bounds not found")
-    bexp = {"LO": (3.5, INF), "UP": (0.0, 3.5), "FX": (3.5, 3.5), "FR": (-INF, INF), "MI": (-INF, INF), "PL": (0.0, INF)}
+    bexp = {("LO", "3.5"): (3.5, INF), ("UP", "3.5"): (0.0, 3.5), ("FX", "3.5"): (3.5, 3.5), ("FR", "3.5"): (-INF, INF),
+            ("MI", "3.5"): (-INF, INF), ("PL", "3.5"): (0.0, INF),
+            # a bound value of exactly zero is a value, not "absent"
+            ("FX", "0.0"): (0.0, 0.0), ("UP", "0.0"): (0.0, 0.0), ("LO", "0.0"): (0.0, INF)}
     bname = bfinal[0].target.elts[1].id
-    for bt, want in bexp.items():
-        env = {"s[1:3].strip()": bt, "s[24:36]": "3.5", "bounds[collabel]": [0.0, None], "bounds[collabel][0]": 0.0,
+    for (bt, bval), want in bexp.items():
+        env = {"s[1:3].strip()": bt, "s[24:36]": bval, "bounds[collabel]": [0.0, None], "bounds[collabel][0]": 0.0,
                "bounds[collabel][1]": None, "collabel": "COL"}
         out = []
         run_block([bchain], env, out)
@@ -391,11 +413,11 @@ def build(tier, repo):
         out2 = []
         run_block(bfinal[0].body, env2, out2)
         got = interval(out2, "v")
-        key = "fromfile:bound type %s" % bt
+        key = "fromfile:bound type %s value %s" % (bt, bval)
         if got == want:
             r4.ok(key, m.where(bchain, fromfile), "[%s, %s]" % got)
         else:
-            r4.violation(key, m.where(bchain, fromfile), "bound type %s with value 3.5 yields [%s, %s]; MPS defines [%s, %s]" % (bt, got[0], got[1], want[0], want[1]), want, got)
+            r4.violation(key, m.where(bchain, fromfile), "bound type %s with value %s yields [%s, %s]; MPS defines [%s, %s]" % (bt, bval, got[0], got[1], want[0], want[1]), want, got)
 
     r5 = chk.rule("C14-R5", "tofile refuses non-LPs before opening the file", "tofile refuses problems that are not LPs")
     first_open = min((n.lineno for n in ast.walk(tofile) if isinstance(n, ast.Call) and pf.call_name(n) == "open"), default=None)
